@@ -11,7 +11,7 @@ from ..sym import R, real, rmax
 from . import kernel
 from . import mineral_h as mh
 from .C05 import uf_field
-from .common import all_eq, eq, np_installed, pydrex_modules, sample, only_path
+from .common import all_eq, eq, main_path, np_installed, pydrex_modules, sample, only_path
 
 TIMEOUT_MS = {"quick": 60000, "thorough": 300000}
 
@@ -167,9 +167,9 @@ def t_phi_times_mobility(sess, n_grains, regime):
 
     with np_installed(core), patched((core, "_get_rotation_and_strain", kstub)):
         paths, info = sym.explore(fn)
-    if len(paths) != 1 or paths[0].exc is not None:
-        raise sym.HarnessError(f"unexpected paths {paths}")
-    p = only_path(sess, paths)
+    p = main_path(sess, paths, f"phi*M [{regime}]")
+    if p is None:
+        return
     multi, single = p.value
     sess.satisfiable(f"phi*M [{regime}]: reach", p.pc)
     sess.prove(f"phi*M [{regime}]: multiphase volume rates = single-phase volume rates at mobility phi*M*", p.pc, all_eq(multi[1], single[1]))
